@@ -181,6 +181,96 @@ pub fn run_case(rng: &mut Rng, thorough: bool) -> (usize, Vec<(usize, u32)>, u32
     (total, wrong, table.bad.load(SeqCst), rounds, desc)
 }
 
+// ---- closure storage sweep: closures of EVERY byte size around the inline/boxed boundary (3 words), with
+// alignment 1, 2 and 4, so that sizes that are not a multiple of the word size are covered.  The closure captures
+// nothing but its array: the id is encoded in the first element, the results go to statics.
+
+static SWEEP_RAN: [AtomicU32; 256] = [const { AtomicU32::new(0) }; 256];
+static SWEEP_BAD: AtomicU32 = AtomicU32::new(0);
+
+fn defer_u8<const N: usize>(g: &circ::Guard, id: usize) {
+    let mut a = [0u8; N];
+    a[0] = id as u8;
+    for (i, b) in a.iter_mut().enumerate().skip(1) {
+        *b = pattern(id, i);
+    }
+    unsafe {
+        ebr::defer(g, move || {
+            let id = a[0] as usize;
+            if a.iter().enumerate().skip(1).any(|(i, b)| *b != pattern(id, i)) {
+                SWEEP_BAD.fetch_add(1, SeqCst);
+            }
+            SWEEP_RAN[id].fetch_add(1, SeqCst);
+        })
+    }
+}
+fn defer_u16<const N: usize>(g: &circ::Guard, id: usize) {
+    let mut a = [0u16; N];
+    a[0] = id as u16;
+    for (i, b) in a.iter_mut().enumerate().skip(1) {
+        *b = pattern(id, i) as u16 * 257;
+    }
+    unsafe {
+        ebr::defer(g, move || {
+            let id = a[0] as usize & 255;
+            if a.iter().enumerate().skip(1).any(|(i, b)| *b != pattern(id, i) as u16 * 257) {
+                SWEEP_BAD.fetch_add(1, SeqCst);
+            }
+            SWEEP_RAN[id].fetch_add(1, SeqCst);
+        })
+    }
+}
+fn defer_u32<const N: usize>(g: &circ::Guard, id: usize) {
+    let mut a = [0u32; N];
+    a[0] = id as u32;
+    for (i, b) in a.iter_mut().enumerate().skip(1) {
+        *b = pattern(id, i) as u32 * 0x01010101;
+    }
+    unsafe {
+        ebr::defer(g, move || {
+            let id = a[0] as usize & 255;
+            if a.iter().enumerate().skip(1).any(|(i, b)| *b != pattern(id, i) as u32 * 0x01010101) {
+                SWEEP_BAD.fetch_add(1, SeqCst);
+            }
+            SWEEP_RAN[id].fetch_add(1, SeqCst);
+        })
+    }
+}
+
+macro_rules! sweep {
+    ($f:ident, $g:expr, $id:ident; $($n:literal),*) => { $( $f::<$n>($g, $id); $id += 1; )* };
+}
+
+/// returns (closures deferred, ran != 1, corrupted)
+pub fn storage_sweep() -> (usize, usize, u32) {
+    for a in SWEEP_RAN.iter() {
+        a.store(0, SeqCst);
+    }
+    SWEEP_BAD.store(0, SeqCst);
+    let mut id = 0usize;
+    // filled by one thread, run by whoever collects (here: after the filling thread has exited)
+    let h = std::thread::spawn(move || {
+        let g = circ::cs();
+        sweep!(defer_u8, &g, id; 1, 2, 3, 4, 5, 6, 7, 8, 9, 10, 11, 12, 13, 14, 15, 16, 17, 18, 19, 20, 21, 22, 23, 24, 25, 26, 27, 28, 29,
+               30, 31, 32, 33, 34, 35, 36, 37, 38, 39, 40, 41, 47, 48, 49, 63, 64, 65, 100);
+        sweep!(defer_u16, &g, id; 1, 2, 3, 4, 5, 6, 7, 8, 9, 10, 11, 12, 13, 14, 15, 16, 17, 18, 19, 20, 21, 25, 33);
+        sweep!(defer_u32, &g, id; 1, 2, 3, 4, 5, 6, 7, 8, 9, 10, 11, 13, 17);
+        drop(g);
+        id
+    });
+    let n = h.join().unwrap();
+    for _ in 0..400 {
+        let g = circ::cs();
+        g.flush();
+        drop(g);
+        if (0..n).all(|i| SWEEP_RAN[i].load(SeqCst) >= 1) {
+            break;
+        }
+    }
+    let wrong = (0..n).filter(|&i| SWEEP_RAN[i].load(SeqCst) != 1).count();
+    (n, wrong, SWEEP_BAD.load(SeqCst))
+}
+
 pub fn run(out_path: &str, seed: u64, thorough: bool, cases: usize) -> (u64, u64, u64) {
     ebr::set_tuning(64, 64);
     let mut out = Out::create(out_path);
@@ -204,6 +294,19 @@ pub fn run(out_path: &str, seed: u64, thorough: bool, cases: usize) -> (u64, u64
         if bad != 0 {
             fails += 1;
             out.line(&format!("PROPFAIL C15 case {} ({}): {} deferred functions saw corrupted captured data", ci, desc, bad));
+        }
+    }
+    for rep in 0..(if thorough { 20 } else { 3 }) {
+        let (n, wrong, bad) = storage_sweep();
+        deferred += n as u64;
+        props += 2;
+        if wrong != 0 {
+            fails += 1;
+            out.line(&format!("PROPFAIL C15 storage sweep (rep {}): {} of {} deferred closures (sizes 1..100 bytes, alignment 1/2/4) did not run exactly once", rep, wrong, n));
+        }
+        if bad != 0 {
+            fails += 1;
+            out.line(&format!("PROPFAIL C15 storage sweep (rep {}): {} deferred closures of a size that is not a multiple of the word size saw corrupted captured data", rep, bad));
         }
     }
     out.line(&format!("# c15 cases={} deferred={} max_rounds={}", cases, deferred, max_rounds));
